@@ -507,6 +507,24 @@ def check(rep, prog, fn):
     for (n, v) in trues:
         if init is not None and not init.is_ancestor_of(n):
             rep.undecided('R13d', n, fn, 'liveness is only ever set in the initialisation', 'a vertex is made live again after the initialisation: outside the idiom table')
+    # ------------------------------------------------------------------ R13g: the vertex read from a queue is the one that is removed from it
+    MATCH = {'front': ('pop_front', 'pop'), 'back': ('pop_back',), 'top': ('pop',)}
+    for x in m.nodes:
+        if x.k == 'CXXMemberCallExpr' and x.callee and x.callee['name'] in MATCH and ex.var_of(x.object_arg()) in (m.queue, m.heap):
+            qv = ex.var_of(x.object_arg())
+            px = cfg.pos_of(x)
+            pops = [y for y in m.nodes if y.k == 'CXXMemberCallExpr' and y.callee and y.callee['name'] in ('pop_front', 'pop_back', 'pop') and ex.var_of(y.object_arg()) == qv
+                    and cfg.pos_of(y) and px and cfg.pos_of(y)[0] == px[0]]
+            whatg = 'the element read with %s() is the element removed from `%s`' % (x.callee['name'], V[qv]['name'])
+            if not pops:
+                rep.undecided('R13g', x, fn, whatg, 'no pop in the same block')
+                continue
+            if pops[0].callee['name'] in MATCH[x.callee['name']]:
+                rep.ok('R13g', x, fn, whatg, '%s() / %s()' % (x.callee['name'], pops[0].callee['name']))
+            else:
+                rep.violation('R13g', x, fn, whatg, 'the loop reads %s() but removes with %s(): with two or more waiting vertices the same vertex is processed again (its '
+                              'neighbours\' live degrees are decremented twice, a vertex with two live neighbours is discarded and a cycle survives) and another one is '
+                              'dropped unprocessed' % (x.callee['name'], pops[0].callee['name']), key='R13g|%s|%s' % (fn.g, x.callee['name']))
     # ------------------------------------------------------------------ R13e: the emission loop runs while anything can still lie on a cycle
     for (n, v) in emits:
         main = n.enclosing(*LOOPS)
@@ -590,6 +608,7 @@ def check(rep, prog, fn):
 
 
 def run(rep, tier):
+    rep.rule('R13g', 'the vertex read from the discard queue / heap is the one removed from it', floor=3)
     rep.rule('R13e', 'the emission loop does not stop while three or more heap entries remain', floor=1)
     rep.rule('R13f', 'no early exit between the clean-up and the emission loop', floor=0)
     rep.rule('R13a', 'initialisation of liveness and live degree', floor=1)
@@ -622,7 +641,7 @@ def run(rep, tier):
         prep = type(rep)(rep.prop, rep.tier)
         for fn in pp.fns(FN):
             check(prep, pp, fn)
-        for r in ('R13a', 'R13b', 'R13c', 'R13d', 'R13e', 'R13f'):
+        for r in ('R13a', 'R13b', 'R13c', 'R13d', 'R13e', 'R13f', 'R13g'):
             rep.positive(r, 'witness/positive/c13_fvs.cc', any(i.status == 'violation' and i.rule == r for i in prep.instances.values()))
     except env.AnalysisBroken as e:
         rep.analysis_broken('positive example c13_fvs.cc does not parse: ' + str(e)[:300])
